@@ -16,7 +16,8 @@ var replyTexts = []string{"4.1.1 Mailbox busy", "5.1.1 User unknown", "Service n
 	"no code here\n5.5.5 code on second line", "2.0.0 odd but fine", "", "5.1.1x no word boundary", "4.3.0 Mail system \t full"}
 
 func genRcpt(r *Rng, i int) string {
-	pool := []string{"rcpt%d@example.com", "other.rcpt%d@example.org", "\"quoted rcpt %d\"@example.com", "Rcpt Name <named%d@example.net>", "rcpt+tag%d@example.com"}
+	pool := []string{"rcpt%d@example.com", "other.rcpt%d@example.org", "\"quoted rcpt %d\"@example.com", "Rcpt Name <named%d@example.net>", "rcpt+tag%d@example.com",
+		"pct%%s.rcpt%d@example.com", "user%%%%eu%d@example.com", "bob%%example.org%d@relay.example.com"}
 	return fmt.Sprintf(pool[r.Intn(len(pool))], i)
 }
 
@@ -75,6 +76,9 @@ func genScenario(r *Rng, maxMsgs, maxRcpts int) *SmtpScenario {
 	nm := 1 + r.Intn(maxMsgs)
 	for i := 0; i < nm; i++ {
 		m := SmtpMsg{From: fmt.Sprintf("sender%d@example.com", i)}
+		if r.Chance(8) {
+			m.From = fmt.Sprintf("sender%%d%d@example.com", i)
+		}
 		if r.Chance(10) {
 			m.EnvFrom = fmt.Sprintf("bounce%d@example.com", i)
 		}
